@@ -55,7 +55,7 @@ pub const REGS: &[Reg] = &[
     Reg {
         prop: "C10",
         name: "error-message-not-expanded-again",
-        script: "price = set 42\ne = trigger_error \"cost \\${price} and \\%{price}\"\nm = get_last_error\nl = get_last_error_line\n",
+        script: "price = set 42\ne = trigger_error \"cost \\${price} and \\\\%{price}\"\nm = get_last_error\nl = get_last_error_line\n",
         side: &[],
         vars: &[("e", Some("false")), ("m", Some("cost ${price} and %{price}")), ("l", Some("2"))],
         trace: None,
